@@ -211,6 +211,22 @@ def rule_r3(ctx):
                 continue
             n += 1
             var = norm(a.targets[0])
+            if f.name == "__enter__" and f.cls is not None and isinstance(a.targets[0], ast.Attribute):
+                # a reservation held by a context manager object: __exit__ gives back exactly what __enter__ stored, unconditionally,
+                # and the class is only ever used as the context expression of a `with`
+                ex = f.cls.methods.get("__exit__")
+                rel = [c for c in calls_in(ex) if isinstance(c.func, ast.Attribute) and c.func.attr == "release"
+                       and norm(c.func.value) == norm(a.value.func.value).replace(f.params[0], ex.params[0], 1)
+                       and [norm(x) for x in c.args] == [var.replace(f.params[0], ex.params[0], 1)]] if ex is not None else []
+                top = bool(rel) and isinstance(getattr(rel[0], "_parent", None), ast.Expr) and getattr(rel[0]._parent, "_parent", None) is ex.node \
+                    and not any(isinstance(x, (ast.Return, ast.Raise)) for x in own_nodes(ex.node))
+                uses = [c for g in repo.module(ED).all_funcs if not isinstance(g.node, ast.Lambda) for c in calls_in(g) if (dotted_of(c.func) or "") == f.cls.name]
+                in_with = bool(uses) and all(isinstance(getattr(c, "_parent", None), ast.withitem) for c in uses)
+                ctx.check("R3", f"{f.local}: the reservation taken on entry is released by __exit__ of every `with {f.cls.name}(…)`", top and in_with, f, a,
+                          "the reservation can leak (__exit__ does not release what __enter__ stored on every path, or the object is used outside a `with`): the budget "
+                          "never returns to zero and later writers block forever",
+                          how="acquire in __enter__ ↔ unconditional release(<stored token>) in __exit__; every construction is a with-item")
+                continue
             blk = getattr(a, "_parent", None)
             body = next((b for b in (getattr(blk, fld, None) for fld in ("body", "orelse", "finalbody")) if isinstance(b, list) and a in b), [])
             i = body.index(a) if a in body else -1
